@@ -122,6 +122,33 @@ CHECKS.update({
              'the text stops changing, plus well-formedness of everything read. Constraint names must be kept. All n >= 1 cycles follow by induction from these two facts.'),
 })
 
+CHECKS.update({
+    'C10': dict(technique='TLA+ denotational semantics of SXFM and of the .exp formula language (FMExports.tla: SplotConfigs, PLConfigs) and of the model '
+                          '(FMSem.tla: Configs), compared by TLC over all 2^n selections; exports of TLC-enumerated models parsed by strict syntax-only '
+                          'parsers; recorded Export events judged by trace validation',
+        design_ref='DESIGN.md section 8 (C10)',
+        text='Every Boolean model up to N features with every relation kind (several per parent) and every depth-1 constraint over the eight logical '
+             'operators is exported with SPLOTWriter and PLWriter; the text must parse as the target syntax (an unknown token such as an enum repr or an '
+             'untranslated XOR fails .parses), name exactly the model features, and denote exactly Configs(m). The dependency defect in CNF '
+             'conversion of XOR/EQUIVALENCE is a named deviation (FMExports!DepModel).'),
+    'C11': dict(technique='TLA+ semantics of the emitted Clafer subset (FMExports.tla: ClaferConfigs, group and cardinality rules) compared by TLC with '
+                          'Configs(m) over all 2^n selections; strict parser of the subset; trace validation of Export events',
+        design_ref='DESIGN.md section 8 (C11)',
+        text='Every model of the Clafer fragment up to N features, depth-1 constraints over the eight operators, attributes of bool/int/float/str '
+             'values, under plain / space / punctuation / operator-word namings (attribute names too): the export must parse, instantiate the root, '
+             'have exactly the model features and configurations, declare every attribute it uses under the same spelling, and use only declared '
+             'features in constraints.'),
+    'C12': dict(technique='TLA+ history specification of Serialize: model unchanged, returned text = file bytes, one digest per (writer, model) over the whole '
+                          'history (FMClauses!WriteClauses memo); histories = repeated in-process calls plus fresh interpreter processes over a sampled '
+                          'environment matrix, concatenated in environment order; trace validation',
+        design_ref='DESIGN.md section 8 (C12)',
+        text='For every model of the C12 families and all eight writers: three in-process repetitions and one fresh interpreter per environment '
+             '(PYTHONHASHSEED x LC_ALL x PYTHONUTF8); TLC checks the projected model is unchanged by every call, returned value = file content, file is '
+             'UTF-8, all digests of one (writer, model) agree across the history, and non-ASCII names map back after reading. TLC\'s part is equality '
+             'bookkeeping over the history; the environment matrix is sampled.',
+        note=COMMON_NOTE + ' The environment matrix is a sampled harness parameter.'),
+})
+
 REASON_TODO = 'check not built yet (build in progress; see DESIGN.md section 12)'
 
 
